@@ -162,7 +162,24 @@ def history(rng, fs, nops, lock_heavy=False, valid_only=False):
         elif r < 0.88:
             # intentionally refused: duplicate name / rename onto existing
             p = rng.choice(live)
-            if rng.random() < 0.5 or len(live) < 2:
+            if cfg['dirs'] and len(dirs) > 1 and rng.random() < 0.35:
+                # files and directories share one name space: rename, put or mkdir onto a name held by the other kind
+                dd = rng.choice(dirs[1:])
+                par = lambda q: q.rsplit('/', 1)[0] if '/' in q else ''
+                sib_f = [q for q in live if par(q) == par(dd)]
+                sib_d = [q for q in dirs[1:] if par(q) == par(dd) and q != dd]
+                k = rng.randrange(5)
+                if k == 0 and sib_f:
+                    ops.append(f"R~{rng.choice(sib_f)}~{spell(rng, dd.rsplit('/', 1)[-1], fs, False)}")
+                elif k == 1 and sib_f:
+                    ops.append(f"R~{dd}~{spell(rng, rng.choice(sib_f).rsplit('/', 1)[-1], fs, False)}")
+                elif k == 2 and sib_d:
+                    ops.append(f"R~{dd}~{rng.choice(sib_d).rsplit('/', 1)[-1]}")
+                elif k == 3:
+                    ops.append(f"M~{spell(rng, p, fs, False)}")
+                else:
+                    ops.append(f"P~{spell(rng, dd, fs, False)}~0~U~~")
+            elif rng.random() < 0.5 or len(live) < 2:
                 ops.append(f"P~{spell(rng, p, fs, not valid_only)}~0~U~~")
             else:
                 q = rng.choice(live)
